@@ -9,6 +9,7 @@ import (
 
 	"verifharness/core"
 	"verifharness/props/c11"
+	"verifharness/props/c12"
 	"verifharness/props/c16"
 )
 
@@ -16,6 +17,7 @@ type runner func(tier string, seed int64, outDir string, replay string) (*core.R
 
 var drivers = map[string]runner{
 	"C11": c11.Run,
+	"C12": c12.Run,
 	"C16": c16.Run,
 }
 
